@@ -390,7 +390,12 @@ class Ops:
             return VStr(z3.Concat(a.term, b.term))
         if isinstance(a, VSeq) and isinstance(b, VSeq) and op == "+" and self.spec_mode:
             ref = self.st.new_ref()
-            self.st.heap[(ref, "seq")] = z3.Concat(self.st.heap[(a.ref, "seq")], self.st.heap[(b.ref, "seq")])
+            cc = getattr(self, "current_contract", None)
+            if cc is not None and getattr(cc, "seq_lemmas", False) and getattr(self, "quant_depth", 0) == 0:
+                from .loops import named_concat
+                self.st.heap[(ref, "seq")] = named_concat(self.st, self.st.heap[(a.ref, "seq")], self.st.heap[(b.ref, "seq")])
+            else:
+                self.st.heap[(ref, "seq")] = z3.Concat(self.st.heap[(a.ref, "seq")], self.st.heap[(b.ref, "seq")])
             return VSeq(ref, a.elem)
         if isinstance(a, (VList, VTuple)) and isinstance(b, (VList, VTuple)) and op == "+":
             items = list(self.items_of(a)) + list(self.items_of(b))
